@@ -95,6 +95,7 @@ def global_prms_writers(ctx, rule='C11-R2'):
         ctx.project.func(q, rule)
         ctx.ok(rule, f'{q}: documented writer of dynamic.AMPYCLOUD_PRMS', ctx.project.funcs[q].loc())
     ctx.tables['writers_of_AMPYCLOUD_PRMS'] = sorted(writers)
+    ctx.sample({'mutation summaries (function -> roots it may write)': {q: sorted(f'{k[0]}:{k[1]}' + ('*' if d else '') for (k, d) in fx.mutations(q)) for q in sorted(fx.summ) if fx.mutations(q)}})
     ctx.floor(rule, 'writers of the global parameter dictionary', len(writers & ALLOWED_PRMS_WRITERS), 2)
 
 
